@@ -105,6 +105,14 @@ Proof.
   - intros u v t [H|[H|[H|[H|[]]]]]; inversion H; subst; repeat split; discriminate.
 Qed.
 
+(* the hypothesis "no repeated edge" is needed: with the edge {0,1} given twice the flat_map keeps one value and the dense
+   table the other, and the two variants return different lists (same divergence observed on the C++ builds; such an
+   input is not a graph and is outside the property) *)
+Example C12_table_variants_need_simple_graph :
+  let es := [(0, 1, 5); (2, 3, 3); (0, 2, 1); (0, 3, 1); (1, 2, 1); (1, 3, 1); (0, 4, 1); (1, 4, 1); (0, 1, 1)] in
+  process_edges true es <> process_edges false es.
+Proof. vm_compute. discriminate. Qed.
+
 (* What the two building blocks compute, in terms of the graph "edges present at time t" (cn_member u v nu nv w f: w is a
    common neighbour of u and v other than u, v, and f is the time from which both edges uw and vw are present):
    common_neighbors returns in e_ngb exactly the common neighbours present at time f_event and in e_ngb_later exactly
